@@ -90,31 +90,31 @@ type Obligation struct {
 }
 
 type FnCtx struct {
-	eng       *Engine
-	tb        *TB
-	bv        bool
-	fn        *ssa.Function
-	key       string
-	contract  *Contract
-	heapSorts map[string]*Sort
-	obs       []*Obligation
-	axioms    []*Term
-	axiomSeen map[int]bool
-	bits      map[int]int
-	tz        map[int]int
-	abstr     map[string]int
-	entry     *State
-	errs      []string
-	selMemo   map[[2]int]*Term
-	calleeUse map[string]int
-	usedAssumed map[string]bool
-	usedInlined map[string]bool
+	eng            *Engine
+	tb             *TB
+	bv             bool
+	fn             *ssa.Function
+	key            string
+	contract       *Contract
+	heapSorts      map[string]*Sort
+	obs            []*Obligation
+	axioms         []*Term
+	axiomSeen      map[int]bool
+	bits           map[int]int
+	tz             map[int]int
+	abstr          map[string]int
+	entry          *State
+	errs           []string
+	selMemo        map[[2]int]*Term
+	calleeUse      map[string]int
+	usedAssumed    map[string]bool
+	usedInlined    map[string]bool
 	hasUnknownCall bool
-	lastEvalErr string
-	madeTypes map[string]types.Type
-	ghostSorts map[string]*Sort
-	inInit bool
-	sitePos map[string]string
+	lastEvalErr    string
+	madeTypes      map[string]types.Type
+	ghostSorts     map[string]*Sort
+	inInit         bool
+	sitePos        map[string]string
 }
 
 func (x *FnCtx) abstracted(what string) { x.abstr[what]++ }
